@@ -405,8 +405,11 @@ func (g *Gen) expr1(sc *scope, want string, depth int) Expr {
 		op, ta, tb := g.pick(ops), g.anyType(), g.anyType()
 		if (op == "*" || op == "+") && ta == "str" {
 			// a string result must not appear where the generator believes another type is:
-			// it could reach '*' with a huge count (C06 excludes results beyond 2^20 bytes)
-			tb = "bool"
+			// it could reach '*' with a huge count (C06 excludes results beyond 2^20 bytes).
+			// The other operand is therefore a literal true/false - a generated expression
+			// "of type bool" can evaluate to nil (`nil and false`), and string + nil is a
+			// string again.
+			return Binary{op, g.expr(sc, ta, d), Lit{"bool", g.pick([]string{"true", "false"})}}
 		}
 		return Binary{op, g.expr(sc, ta, d), g.expr(sc, tb, d)}
 	}
